@@ -688,3 +688,32 @@ func genCap(r *rand.Rand) *Case {
 	}
 	return c
 }
+
+// withPriors adds 0-2 other requests that the WAF serves (and closes) between the fresh run of the
+// case's request and its re-run on the recycled transaction object: permutations of the case's own
+// arguments with some values replaced, so that the same rules fire differently (other counters,
+// other severities, captures, possibly an interruption) before the object is reused.
+func withPriors(r *rand.Rand, c *Case) *Case {
+	n := r.Intn(3)
+	for i := 0; i < n; i++ {
+		p := Req{}
+		for _, a := range c.Args {
+			v := a[1]
+			if r.Intn(2) == 0 {
+				v = pick(r, valuePool)
+			}
+			p.Args = append(p.Args, [2]string{a[0], v})
+		}
+		if r.Intn(2) == 0 {
+			p.Args = append(p.Args, [2]string{pick(r, []string{"a", "b", "c"}), pick(r, valuePool)})
+		}
+		r.Shuffle(len(p.Args), func(i, j int) { p.Args[i], p.Args[j] = p.Args[j], p.Args[i] })
+		if r.Intn(2) == 0 {
+			p.Hdrs = c.Hdrs
+		} else if r.Intn(2) == 0 {
+			p.Hdrs = [][2]string{{"x-h1", pick(r, valuePool)}}
+		}
+		c.Priors = append(c.Priors, p)
+	}
+	return c
+}
